@@ -185,19 +185,34 @@ MapOutcome(judged, m) ==
   IF m = 0 THEN [doc |-> Unspec, len |-> 0, picks |-> <<>>]
   ELSE [doc |-> IF judged THEN [k |-> "map"] ELSE Unspec, len |-> m, picks |-> [i \in 1..m |-> <<i, i>>]]
 
-ApplyUnary(c, f, m) ==
+\* option variants of the per-value methods: the multi-valued code path must honour them too
+Opts(f) ==
+  CASE f = "rpy"   -> {"", "deg", "xyz", "yxz", "xyz+deg"}
+    [] f = "eul"   -> {"", "deg", "flip"}
+    [] f = "theta" -> {"", "deg"}
+    [] f = "xyt"   -> {"", "deg"}
+    [] f = "log"   -> {"", "twist"}
+    [] OTHER       -> {""}
+AllOpts == {"", "deg", "xyz", "yxz", "xyz+deg", "flip", "twist"}
+
+ApplyUnary(c, f, o, m) ==
   /\ op = "none"
   /\ c \in ListOps
   /\ f \in PerValue(c) \cup PerValueExtra(c)
-  /\ op' = f /\ lft' = [c |-> c, n |-> m] /\ rgt' = [c |-> "none", n |-> 0]
+  /\ o \in Opts(f)
+  /\ (o = "twist" => c \in Pose)
+  /\ op' = f /\ lft' = [c |-> c, n |-> m] /\ rgt' = [c |-> "none", n |-> 0, opt |-> o]
   /\ out' = MapOutcome(f \in PerValue(c), m)
 
-\* X.interp(s) with a vector of k values of s on a single-valued X: k results, result i from s[i]
-ApplyInterp(c, k) ==
+\* X.interp(s) with a vector of k values of s on a single-valued X: k results, result i from s[i];
+\* variants: explicit start / destination, shorter arc requested
+InterpOpts(c) == IF c = "UnitQuaternion" THEN {"", "dest", "shortest", "dest+shortest"} ELSE {"", "start"}
+ApplyInterp(c, k, o) ==
   /\ op = "none"
   /\ c \in Pose \cup {"UnitQuaternion"}
   /\ k >= 1
-  /\ op' = "interp" /\ lft' = [c |-> c, n |-> 1] /\ rgt' = [c |-> "svec", n |-> k]
+  /\ o \in InterpOpts(c)
+  /\ op' = "interp" /\ lft' = [c |-> c, n |-> 1] /\ rgt' = [c |-> "svec", n |-> k, opt |-> o]
   /\ out' = [doc |-> [k |-> "map"], len |-> k, picks |-> [i \in 1..k |-> <<1, i>>]]
 
 UnaryNames == UNION {PerValue(c) \cup PerValueExtra(c) : c \in ListOps}
@@ -205,8 +220,9 @@ UnaryNames == UNION {PerValue(c) \cup PerValueExtra(c) : c \in ListOps}
 Next ==
   \/ \E o \in OpSet : \E L \in LeftKinds : \E R \in RightKinds : \E m \in Lens : \E n \in Lens :
           Apply(o, L, m, R, n)
-  \/ \E c \in LeftKinds : \E f \in UnaryNames : \E m \in Lens : Unary /\ ApplyUnary(c, f, m)
-  \/ \E c \in LeftKinds : \E k \in Lens : Unary /\ ApplyInterp(c, k)
+  \/ \E c \in LeftKinds : \E f \in UnaryNames : \E o \in AllOpts : \E m \in Lens : Unary /\ ApplyUnary(c, f, o, m)
+  \/ \E c \in LeftKinds : \E k \in Lens : \E o \in {"", "start", "dest", "shortest", "dest+shortest"} :
+        Unary /\ ApplyInterp(c, k, o)
 
 Spec == Init /\ [][Next]_vars
 
